@@ -33,8 +33,8 @@ unsigned: integer part of D16 and D48 repaired): the float arms of Int / Int64 (
 fractions (pinned by the repository's own tests) and is unchecked for range.  The Float / Float64 arms are
 finiteness-checked now. -/
 def pinnedOutR : Scalar → List (Kind × Action)
-  | .int => [(.f32, .conv .i32), (.f64, .conv .i32)]
-  | .int64 => [(.f32, .conv .i64), (.f64, .conv .i64)]
+  | .int => [(.f32, .convTrunc .i32), (.f64, .convTrunc .i32)]
+  | .int64 => [(.f32, .convTrunc .i64), (.f64, .convTrunc .i64)]
   | .float => []
   | .float64 => []
   | .string => []
